@@ -687,9 +687,19 @@ def fold(e):
     return _Fold().visit(e)
 
 
+_ENV_CACHE = {}
+
+
 def expr_at(fi, node, expr, keep=()):
     """`expr` evaluated symbolically at the program point of `node` inside fi; names in `keep` stay symbolic"""
-    env = env_at(fi.node.body, node, keep=keep)
+    key = (id(fi.node), id(node), tuple(keep))
+    hit = _ENV_CACHE.get(key)
+    if hit is None or hit[0] is not fi.node or hit[1] is not node:
+        hit = (fi.node, node, env_at(fi.node.body, node, keep=keep))      # the nodes are kept alive so that ids cannot be reused
+        if len(_ENV_CACHE) > 4000:
+            _ENV_CACHE.clear()
+        _ENV_CACHE[key] = hit
+    env = hit[2]
     out = fold(_SubstEnv(env).visit(copy.deepcopy(expr)))
     if PROG is not None:
         out = fold(inline_calls(PROG, fi, out))
@@ -909,6 +919,11 @@ def bind_call(prog, fi, callee_node, call, bound=False):
             items = [(kk.value, v) for kk, v in zip(x.keys, x.values)]
         elif isinstance(x, ast.Call) and isinstance(x.func, ast.Name) and x.func.id == "dict" and not x.args and all(kw.arg for kw in x.keywords):
             items = [(kw.arg, kw.value) for kw in x.keywords]
+        if items is None and isinstance(x, ast.Call) and isinstance(x.func, ast.Attribute) and x.func.attr in ("model_dump", "dict"):
+            inc = kwarg(x, "include")
+            if isinstance(inc, (ast.Set, ast.List, ast.Tuple)) and all(isinstance(e_, ast.Constant) and isinstance(e_.value, str) for e_ in inc.elts):
+                # a pydantic model dumped field by field: {name: model.name}
+                items = [(e_.value, ast.Attribute(value=copy.deepcopy(x.func.value), attr=e_.value, ctx=ast.Load())) for e_ in inc.elts]
         if items is None:
             complete = False
             continue
@@ -1056,9 +1071,11 @@ class _CompIdx(ast.NodeTransformer):
 
 # ----------------------------------------------------------------------------- argument forwarding through helpers
 def forwarded_args(prog, fi, target_qual, depth=2, _seen=()):
-    """every way `fi` calls the function `target_qual`, directly or through package helpers it calls (up to `depth` levels):
+    """every way `fi` calls the function `target_qual`, directly or through helpers it calls (module-level functions of the same module,
+    or methods of the same object called on `self`; up to `depth` levels):
     -> [{"call": call node, "holder": function containing it, "chain": [names], "args": {target param: expression in terms of fi's
-    scope at the outermost call site (None if it cannot be expressed)}, "missing": [target params not passed], "complete": bool, "errors": [...]}]"""
+    scope at the outermost call site (None if it cannot be expressed)}, "missing": [target params not passed], "complete": bool, "errors": [...],
+    "star": names of `**kw` arguments of the call that could not be resolved}]"""
     from .program import FuncInfo
     out = []
     for c, r in prog.calls_in(fi):
@@ -1071,14 +1088,20 @@ def forwarded_args(prog, fi, target_qual, depth=2, _seen=()):
             for p_ in pos + kwonly:
                 if p_ in m and isinstance(m[p_], ast.AST):
                     args[p_] = expr_at(fi, c, m[p_])
+            star = [k.value.id for k in c.keywords if k.arg is None and isinstance(k.value, ast.Name)]
             out.append({"call": c, "holder": fi, "chain": [fi.node.name], "args": args, "missing": [p_ for p_ in pos + kwonly if p_ not in m],
-                        "complete": complete, "errors": errs, "outer_call": c})
-        elif depth > 0 and r.cls is None and r.qual not in _seen and r.mod == fi.mod:
+                        "complete": complete, "errors": errs, "outer_call": c, "star": star if not complete else []})
+            continue
+        same_obj = r.cls is not None and isinstance(c.func, ast.Attribute) and isinstance(c.func.value, ast.Name) and c.func.value.id == "self" \
+            and not getattr(r, "is_static", False) and not getattr(r, "is_classmethod", False)
+        if depth > 0 and r.qual not in _seen and r.node is not fi.node and ((r.cls is None and r.mod == fi.mod) or same_obj):
             inner = forwarded_args(prog, r, target_qual, depth - 1, _seen + (fi.qual,))
             if not inner:
                 continue
-            m, errs, complete = bind_call(prog, fi, r.node, c)
-            hp = set(params_of(r.node)[0] + params_of(r.node)[1])
+            m, errs, complete = bind_call(prog, fi, r.node, c, bound=same_obj)
+            hpos, hkw, _, hkwarg = params_of(r.node)
+            hkwarg = getattr(hkwarg, "arg", hkwarg)
+            hp = set(hpos + hkw) - ({"self"} if same_obj else set())
             for rec in inner:
                 args = {}
                 for p_, e in rec["args"].items():
@@ -1089,8 +1112,18 @@ def forwarded_args(prog, fi, target_qual, depth=2, _seen=()):
                         args[p_] = fold(_SubstEnv(sub).visit(copy.deepcopy(e)))
                     else:
                         args[p_] = None
-                out.append({"call": rec["call"], "holder": rec["holder"], "chain": [fi.node.name] + rec["chain"], "args": args, "missing": rec["missing"],
-                            "complete": rec["complete"] and complete, "errors": rec["errors"] + errs, "outer_call": c})
+                missing = list(rec["missing"])
+                comp = rec["complete"] and complete
+                # the helper forwards its own **kwargs: the extra keywords of THIS call travel through to the target
+                if hkwarg and hkwarg in rec.get("star", []):
+                    extra = {k.arg: k.value for k in c.keywords if k.arg is not None and k.arg not in hp}
+                    for k_, v_ in extra.items():
+                        if k_ in missing:
+                            args[k_] = expr_at(fi, c, v_)
+                            missing.remove(k_)
+                    comp = complete and not any(k.arg is None for k in c.keywords) and len(rec.get("star", [])) == 1
+                out.append({"call": rec["call"], "holder": rec["holder"], "chain": [fi.node.name] + rec["chain"], "args": args, "missing": missing,
+                            "complete": comp, "errors": rec["errors"] + errs, "outer_call": c, "star": []})
     return out
 
 
@@ -1211,3 +1244,74 @@ def _outcomes(stmts):
                 return a
             return (a - {"fall"}) | _outcomes(stmts[i + 1:])
     return {"fall"}
+
+
+# ----------------------------------------------------------------------------- hand-over of attributes / parameters to a callee
+def attr_store_status(fi, at_node, attr_src):
+    """for an expression like `self.run_params.DF` read at `at_node`: ("before", value) if the last store into it on the straight-line
+    path precedes the read, ("after", value) if the first store comes later in the function, (None, None) if it is never stored"""
+    order = [n for s_ in fi.node.body for n in ast.walk(s_)]
+    pos = {id(n): i for i, n in enumerate(order)}
+    here = pos.get(id(at_node))
+    before, after = None, None
+    for n in order:
+        if isinstance(n, ast.Assign):
+            pairs = []
+            for t in n.targets:
+                if isinstance(t, (ast.Tuple, ast.List)) and isinstance(n.value, (ast.Tuple, ast.List)) and len(t.elts) == len(n.value.elts):
+                    pairs += list(zip(t.elts, n.value.elts))
+                else:
+                    pairs.append((t, n.value))
+            for t, v in pairs:
+                if isinstance(t, ast.Attribute) and src(t) == attr_src:
+                    if here is not None and pos[id(n)] < here:
+                        before = (n, v)
+                    elif after is None:
+                        after = (n, v)
+    if before is not None:
+        return "before", expr_at(fi, before[0], before[1])
+    if after is not None:
+        return "after", after[1]
+    return None, None
+
+
+def handover(prog, fi, callee_qual, want, depth=1):
+    """check how `fi` hands values to the package function `callee_qual`.  want: {callee parameter: acceptable source texts}; a source is
+    the text of the argument after flow-sensitive expansion (`self.run_params.nxseg`, a parameter name of fi, `self.result.S_val`, ...).
+    -> [(call, param, status, detail)] with status True / False / None.  An attribute that is read before the method stores the
+    caller's value into it is STALE (the value of an earlier call) and therefore wrong."""
+    out = []
+    recs = forwarded_args(prog, fi, callee_qual, depth=depth)
+    params = set(params_of(fi.node)[0] + params_of(fi.node)[1])
+    for rec in recs:
+        c = rec["outer_call"]
+        for p_, sources in want.items():
+            if p_ in rec["missing"]:
+                out.append((c, p_, False if rec["complete"] else None, f"`{p_}` is not passed (the callee's default is used)"))
+                continue
+            a = rec["args"].get(p_)
+            if a is None:
+                out.append((c, p_, None, f"argument for `{p_}` could not be expressed in the caller's scope"))
+                continue
+            txt = src(a, 120)
+            if txt in sources:
+                # an attribute source must not be stale
+                if isinstance(a, ast.Attribute) and txt.startswith("self.run_params."):
+                    st, v = attr_store_status(rec["holder"] if rec["holder"] is fi else fi, c, txt)
+                    if st == "after":
+                        out.append((c, p_, False, f"`{p_}` <- `{txt}` is read BEFORE this call's value is stored into it (`{txt} = {src(v, 30)}` comes later): the value of the previous call is used"))
+                        continue
+                out.append((c, p_, True, f"`{p_}` <- `{txt}`"))
+                continue
+            # an attribute holding the caller's own parameter, stored before the call
+            if isinstance(a, ast.Attribute):
+                st, v = attr_store_status(fi, c, txt)
+                if st == "before" and v is not None and src(v, 120) in sources:
+                    out.append((c, p_, True, f"`{p_}` <- `{txt}` (= `{src(v, 40)}` stored just before)"))
+                    continue
+                if st == "after":
+                    out.append((c, p_, False, f"`{p_}` <- `{txt}` is read BEFORE `{txt} = {src(v, 30)}` is executed: the value of the previous call is used"))
+                    continue
+            recognisable = isinstance(a, (ast.Name, ast.Constant, ast.Attribute)) or (isinstance(a, ast.Subscript) and isinstance(a.slice, ast.Constant))
+            out.append((c, p_, False if recognisable else None, f"`{p_}` receives `{txt}`, expected one of {sorted(sources)}"))
+    return out
